@@ -426,7 +426,8 @@ SPEC = PropSpec(
                  "renderings, malformed input and documents that fail half-way. lxml's own namespace resolution is "
                  "modelled, not decided."
                  ' Path histories: the same path loaded again through load_xml after the file was replaced by another rendering or by malformed XML reflects the file, and two loads never share one definition object.'
-                 ' Renderings include indentation (whitespace text and tails, spaces or tabs) next to comments.'),
+                 ' Renderings include indentation (whitespace text and tails, spaces or tabs) next to comments.'
+                 ' Every rendering is also loaded with a non-default root_container_name.'),
     rule_doc="R16.1/R16.3 per reader function; R16.2 per setter; R16.m per rendering and per (history, target)",
     assumptions=["lxml: ElementPath `*` and named steps select elements only; iterating an element yields comments too",
                  "lxml resolves prefixes through the namespaces= argument (None key = default namespace)"],
